@@ -217,6 +217,8 @@ class PropertyCheck:
         outs: list[str] = []
         fails: list[Failure] = []
         ctx: dict = {}
+        # the line sent to the model may carry data only the implementation run produces (e.g. a solver's solution)
+        scenario.model_lines = []
         for i, line in enumerate(scenario.lines):
             try:
                 out = impl.exec(line)
@@ -224,6 +226,8 @@ class PropertyCheck:
                 out = f"crash {type(e).__name__}: {e}"
                 fails.append(Failure("crash", scenario, i, out + "\n" + traceback.format_exc(limit=4), site="crash"))
             outs.append(out)
+            ml = getattr(impl, "model_line", None)
+            scenario.model_lines.append(ml(line) if ml else line)
             try:
                 for site, msg in self.oracle(impl, scenario, i, line, out, ctx):
                     fails.append(Failure("oracle", scenario, i, msg, observed=out, site=site))
@@ -255,7 +259,7 @@ class PropertyCheck:
             outs, fails = self.run_impl(scn)
             impl_results.append(outs)
             oracle_fails.extend(fails)
-            all_lines.extend(scn.lines)
+            all_lines.extend(getattr(scn, "model_lines", None) or scn.lines)
         model_all = run_model(all_lines) if all_lines else []
         diffs: list[Failure] = []
         pos = 0
